@@ -103,4 +103,25 @@ inductive Path where
 def pathSelect (forceSequential : Bool) (blockSize minParallelTxs : Nat) : Path :=
   if forceSequential ∨ blockSize < minParallelTxs then .sequential else .parallel
 
+/-- What an attempt of transaction `txid` yields, as far as the error branch is concerned.
+    `nonceChecked` = the attempt validates the nonce (attempts that start at the commit head, after
+    the repair of finding F7; speculative attempts never do); `nonceBad` = in-order validation
+    rejects the nonce; `exec` = what execution yields when it is reached. -/
+def attempt (nonceChecked : Bool) (nonceBad : Option Nat) (exec : TxRes) : TxRes :=
+  match nonceChecked, nonceBad with
+  | true, some reason => .invalid reason
+  | _, _ => exec
+
+/-- In-order execution of one transaction: nonce validation first. -/
+def inOrderTx (nonceBad : Option Nat) (exec : TxRes) : TxRes :=
+  match nonceBad with
+  | some reason => .invalid reason
+  | none => exec
+
+/-- The abort decision for an attempt's result (`execute_task` error branch + classification). -/
+def abortFor (atCommitHead : Bool) (txid : Nat) : TxRes → Option AbortReason
+  | .ok _ => none
+  | .invalid _ => errorBranch atCommitHead true txid
+  | .fatal _ => errorBranch atCommitHead false txid
+
 end Grevm.Commit
